@@ -94,7 +94,11 @@ func scanPB(f gen.M) []core.Case {
 func scanOpt(f gen.M) []core.Case {
 	o, _ := f["obj"].(map[string]any)
 	obj := gen.M{"lits": toInts(o["lits"]), "w": toInts(o["w"])}
-	c := gen.APICase("pb", n(f, "n"), false, gteqCtors(f), true, obj, gen.Cfg(false, 0, 0, b(f, "cp"), false, true), []gen.M{gen.Op(s(f, "op"))})
+	op := gen.Op("minimize")
+	if s(f, "op") == "optimal" {
+		op = gen.OpChan("optimal", false)
+	}
+	c := gen.APICase("pb", n(f, "n"), false, gteqCtors(f), true, obj, gen.Cfg(false, 0, 0, b(f, "cp"), false, true), []gen.M{op})
 	c["wbStrict"] = b(f, "cp")
 	return []core.Case{deepCopy(c)}
 }
